@@ -27,22 +27,39 @@ def tag(name):
 
 
 def compare_cell(case, obs):
-    """Property-level comparison of one replayed cell.  Returns (kind, message) or None."""
+    """Property-level comparison of one replayed cell.  Returns (kind, message) or None.
+
+    A cell may stand next to a SECOND unit (field `pre`: a statement / function before or after it).  TLC judges
+    that neighbour on its own (`pok`, `pcodes`); the construct keeps its own verdict: independent constructs are
+    diagnosed independently, a well-typed construct gets no diagnostic on its line whatever stands next to it."""
     if obs.get("panic"):
         return ("panic", "the compiler panicked (%s): the verdict of the rule (%s) cannot be observed" %
                 (obs["panic"], "accept" if case["ok"] else "reject with %s" % case["codes"]))
     if obs.get("silent"):
         return ("silent", "compilation failed without any diagnostic")
+    at_line = sorted(set(c for c, l in obs["diags"] if l == obs["line"]))
+    bad_neighbour = not case.get("pok", True)
+    if bad_neighbour:
+        at_pre = sorted(set(c for c, l in obs["diags"] if l == obs.get("pre_line")))
+        if not set(at_pre) & set(case["pcodes"]):
+            return ("neighbour-not-diagnosed", "the ill-typed unit next to the construct (line %s) must be rejected with one of %s; "
+                    "diagnostics: %s" % (obs.get("pre_line"), case["pcodes"], obs["diags"]))
     if case["unc"]:
         return None
-    at_line = sorted(set(c for c, l in obs["diags"] if l == obs["line"]))
     if case["ok"]:
+        if bad_neighbour:
+            if at_line:
+                return ("rejected-welltyped", "a well-typed construct (result type %s) next to an ill-typed unit is reported: %s" %
+                        (".".join(case["ty"]), obs["diags"]))
+            return None
         if not obs["ok"]:
             return ("rejected-welltyped", "a well-typed construct (result type %s) is rejected: %s" %
                     (".".join(case["ty"]), obs["diags"]))
         return None
-    if obs["ok"]:
-        return ("accepted-illtyped", "an ill-typed construct is accepted; the rule demands one of %s" % case["codes"])
+    if obs["ok"] or (bad_neighbour and not at_line):
+        return ("accepted-illtyped", "an ill-typed construct is accepted%s; the rule demands one of %s" %
+                (" (no diagnostic on its line; only its ill-typed neighbour is reported: %s)" % obs["diags"] if bad_neighbour else "",
+                 case["codes"]))
     if not set(at_line) & set(case["codes"]):
         return ("wrong-code", "rejected, but with %s on the line of the construct (all: %s); the rule names %s" %
                 (at_line, obs["diags"], case["codes"]))
@@ -62,7 +79,7 @@ def violation_key(case, obs, kind):
     key = obs["key"]
     if kind == "panic":
         key += " :: panic=" + obs["panic"]
-    elif kind in ("accepted-illtyped", "rejected-welltyped", "wrong-code", "silent"):
+    elif kind in ("accepted-illtyped", "rejected-welltyped", "wrong-code", "silent", "neighbour-not-diagnosed"):
         key += " :: " + kind
     return key
 
@@ -308,9 +325,20 @@ def run(rep, tier, seed, selftest):
                 "passed to a struct view, argument of another call, index, operand of a cast / operator, return value, "
                 "condition) and every statement context (top level, block, loop block, then, else, else-if arm, final else "
                 "after else-if, second else-if arm, after a label); the rule ignores the context. "
+                "Further generator dimensions the rule ignores (dimension audit): the syntactic form of an operand (call result, cast, "
+                "named constant, element of a (nested) array / of a view, (nested) member, member through a pointer, literal, `|x|`, "
+                "`|:T|`), a second unit next to the construct (well-typed call / ill-typed statement before or after it, a function "
+                "with a well-typed / ill-typed body or return value before or after its function; TLC judges the neighbour too), the "
+                "position of the described argument among 2..4 and a second call of the callee in the same statement, the kind of "
+                "callee (head, body before / after, pub, extern, libc names), flags of the enclosing function, words of every size, "
+                "array lengths written as named constants and lengths that agree modulo 2^8 / 2^16 / 2^24, arrays of pointers, "
+                "pointers to arrays of arrays / pointers / structs / words, a return value without return type, a poisoned variable "
+                "stored in a struct member that a second function assigns. "
                 "Non-trivial = distinct cells that are rejected, unconstrained, use an address marker or pair two different types. "
                 "Seeded larger well-typed programs (all primitive types; expressions, assignments, calls, returns), the valid "
-                "corpus and single-edit mutants are compiled; one fact per typed node of the resolved tree and one record per "
+                "corpus and single-edit mutants are compiled (every module has TWO functions with bodies, the second before the "
+                "first in every other module, every third mutant edits the second; the wrong operand of a mutant is a variable, a call "
+                "result, a named constant or a cast); one fact per typed node of the resolved tree and one record per "
                 "mutant are validated by TLC against the same judgement (Trace_TypeRules.tla); distinct (context, operator, "
                 "types) facts and distinct mutant cells are added to the non-trivial count.",
         "exhaustive": True,
@@ -333,11 +361,23 @@ def run(rep, tier, seed, selftest):
         "cells the documentation leaves open are unconstrained (spec/UNCONSTRAINED-types.md) and accepted either way",
         "a rejected cell needs one diagnostic whose code the rule names on the line of the construct; other diagnostics are ignored",
     ]
-    return rep.finish("model_checking", coverage, assumptions)
+    # type inference (spec/Inference.tla), the C07 half: a body whose constraints are unsatisfiable or undetermined must be
+    # rejected, and the types resolved in an accepted body are THE solution (no execution, no random part here: those are C01's)
+    from . import infer_part
+    icov = infer_part.run_part(rep, tier, seed, selftest, focus="C07")
+    coverage.update(icov)
+    coverage["states"] = coverage.get("states", 0) + icov.get("infer_states", 0)
+    coverage["transitions"] = coverage.get("transitions", 0) + icov.get("infer_transitions", 0)
+    coverage["traces_validated_against_impl"] = coverage.get("traces_validated_against_impl", 0) + icov.get("infer_cases_replayed", 0)
+    coverage["evaluations"] = coverage.get("evaluations", 0) + icov.get("infer_cases_replayed", 0)
+    return rep.finish("model_checking", coverage, assumptions + list(infer_part.ASSUMPTIONS))
 
 
 def replay(path):
     d = json.load(open(path))
+    if d.get("kind", "").startswith("infer-"):
+        from . import infer_part
+        return infer_part.replay(path)
     detail = d.get("detail", {})
     print("kind=%s key=%s" % (d.get("kind"), d.get("key")))
     print(detail.get("message", ""))
